@@ -80,7 +80,7 @@ std::map<IndexCombination4,std::vector<ComplexType> > TwoParticleGFContainer::co
     for (size_t p=0; p<comm.size(); p++) {
         int color = int (1.0*p / color_size);
         proc_colors[p] = color;
-        color_roots[color]=p;
+        if (!color_roots.count(color)) color_roots[color]=p; // rank 0 of the split communicator, where compute() reduces the data
     }
     for (size_t i=0; i<ncomponents; i++) {
         int color = i*ncolors/ncomponents;
@@ -121,6 +121,7 @@ std::map<IndexCombination4,std::vector<ComplexType> > TwoParticleGFContainer::co
             out[iter->first] = freq_data;
 
             if (comm.rank() != sender) {
+                if (!clearTerms) chi.parts[p]->Status = TwoParticleGFPart::Computed; // the terms have just been received
                 chi.setStatus(TwoParticleGF::Computed);
                  };
             };
